@@ -275,7 +275,7 @@ func runOutboundProcess(c OPCase, prop string) *fOutcome {
 		for _, r := range c.Deny {
 			fmt.Fprintf(&cfg, "    deny %s\n", q(r))
 		}
-		fmt.Fprintf(&cfg, "  }\n  deliver {\n    %s\n    timeout 2s\n  }\n}\n", opRetryLine(c.DefMax))
+		fmt.Fprintf(&cfg, "  }\n  deliver {\n    %s\n    timeout 20s\n  }\n}\n", opRetryLine(c.DefMax))
 		cfg.WriteString("/fan {\n")
 		for k, tg := range c.Targets {
 			fmt.Fprintf(&cfg, "  deliver %s {\n", q(urls[k]))
@@ -283,7 +283,7 @@ func runOutboundProcess(c OPCase, prop string) *fOutcome {
 				fmt.Fprintf(&cfg, "    %s\n", opRetryLine(tg.RetryMax))
 			}
 			if tg.Partial {
-				cfg.WriteString("    timeout 3s\n")
+				cfg.WriteString("    timeout 21s\n")
 			}
 			switch tg.Sign {
 			case "inline":
